@@ -85,6 +85,10 @@ func classify(block []byte) (gState, string) {
 			return gIdle, fn
 		}
 	}
+	if strings.HasPrefix(status, "IO wait") && bytes.Contains(rest, []byte("net/http.(*Server).Serve(")) && bytes.Contains(rest, []byte(".Accept(")) {
+		// the accept loop of a real listener (worlds with Listen)
+		return gIdle, "net/http.(*Server).Serve"
+	}
 	if fn == "time.Sleep" && strings.HasPrefix(status, "sleep") {
 		// timerqueue timer goroutine
 		if bytes.Contains(rest, []byte("timerqueue.(*Queue).timer")) {
